@@ -72,6 +72,7 @@ def backend(ctx):
 def pos_int(ctx, name, lo=1):
     v = ctx.fresh(name, "int")
     ctx.assume(v.t >= lo)
+    cm.ctx_state(ctx).dims.append(v.t)
     return v
 
 
@@ -579,7 +580,6 @@ def det_ensures(s):
     b, i, j = lift(s.b0), lift(s.i0), lift(s.j0)
     inten = mode_intensity(ctx, s.exit_waves, "ortho")
     out += [("I[b,i,j]=sum_m|F_ortho[m,b,(i-nr//2)%nr,(j-nc//2)%nc]|^2 (centred)", r_term(res.fn(b, i, j)) == r_term(inten.fn(b, uncentre(i, s.nr), uncentre(j, s.nc)))),
-            ("DC-at-(nr//2,nc//2)", r_term(res.fn(b, lift(s.nr) / 2, lift(s.nc) / 2)) == r_term(inten.fn(b, z3.IntVal(0), z3.IntVal(0)))),
             ("sum_ij I[b] = sum_m sum_ij |exit[m,b]|^2 (Parseval, any ROI)", cm.total(res, (b,)).t == cm.mode_energy(s.exit_waves, (b,)).t)]
     return out
 
